@@ -135,6 +135,85 @@ def stream_csv(c, N, tmp):
                 break
 
 
+def stream_csv_handwritten(c, N, tmp):
+    """files as other tools write them: full float text, EMPTY cells for missing values (single cells, partly
+    empty and all-empty columns) in all three dialects, with and without the time column"""
+    import rtctools.data.csv as csv
+
+    rng = c.rng
+    for i in range(N):
+        dialect = rng.choice(["comma", "semicolon", "semicolon+comma"])
+        delim = "," if dialect == "comma" else ";"
+        with_time = rng.random() < 0.6
+        ncol = rng.randint(1 if with_time else 2, 4)
+        names = rng.sample(["a", "b_c", "Q.x", "H", "x1", "storage.V", "u"], ncol)
+        n = rng.choice([1, 2, 3, 4, 6])
+        cols, modes = {}, {}
+        for nm in names:
+            mode = rng.choice(["full", "single", "partly", "all-empty"])
+            vals = [rng.choice([rng.uniform(-1e4, 1e4), rng.randint(-64, 64) / 16, 0.5, 1e-5 * rng.random(), 12.0])
+                    for _ in range(n)]
+            if mode == "single":
+                vals[rng.randrange(n)] = None
+            elif mode == "partly":
+                vals = [None if rng.random() < 0.5 else v for v in vals]
+            elif mode == "all-empty":
+                vals = [None] * n
+            cols[nm], modes[nm] = vals, mode
+        if not with_time:  # a line of delimiters only is still a row; keep it that way
+            pass
+        start = rng.choice([0, 86400 * rng.randint(0, 6000), rng.randint(0, 10 ** 8)])
+        step = rng.choice([60, 3600, 25200, 86400])
+        times = [start + k * step for k in range(n)]
+
+        def cell(v):
+            if v is None:
+                return ""
+            t = repr(float(v))
+            return t.replace(".", ",") if dialect == "semicolon+comma" else t
+
+        rows = [delim.join((["time"] if with_time else []) + names)]
+        for k in range(n):
+            rows.append(delim.join(([dtm(times[k]).strftime("%Y-%m-%d %H:%M:%S")] if with_time else [])
+                                   + [cell(cols[nm][k]) for nm in names]))
+        fn = os.path.join(tmp, "h%d.csv" % i)
+        with open(fn, "w") as fh:
+            fh.write("\n".join(rows) + "\n")
+
+        def real():
+            with warnings.catch_warnings():
+                warnings.simplefilter("ignore")
+                r = np.atleast_1d(csv.load(fn, delimiter=delim, with_time=with_time))
+            return (list(r.dtype.names), [sec(t) for t in r[r.dtype.names[0]]] if with_time else None,
+                    {nm: [float(x) for x in r[nm]] for nm in r.dtype.names[(1 if with_time else 0):]})
+
+        res = call(real)
+        try:
+            os.remove(fn)
+        except OSError:
+            pass
+        case = {"stream": "csv hand-written", "dialect": dialect, "with_time": with_time, "text": "\n".join(rows)}
+        c.count(("csvh", dialect, with_time, n, tuple(sorted(modes.values()))))
+        c.hit("csv-handwritten/" + dialect + (" +time" if with_time else ""))
+        for md in set(modes.values()):
+            c.hit("csv-handwritten/column " + md)
+        c.sample(case, limit=1)
+        if res[0] == "raise":
+            c.fail("csv.load of a well-formed hand-written file raised " + res[1], case)
+            continue
+        rnames, ts, out = res[1]
+        if rnames != (["time"] if with_time else []) + names or (with_time and ts != times):
+            c.fail("csv.load changes the column names / time stamps", case, {"names": rnames, "times": ts})
+            continue
+        for nm in names:
+            exp = [NAN if v is None else float(v) for v in cols[nm]]
+            got = out[nm]
+            if len(got) != len(exp) or any((isnan(a) != isnan(b)) or (not isnan(a) and a != b) for a, b in zip(exp, got)):
+                c.fail("csv.load: an empty cell is not read back as NaN / a value is changed (%s column)" % modes[nm],
+                       case, {"column": nm, "expected": exp, "got": got})
+                break
+
+
 # ---------------------------------------------------------------------------------------------
 # NetCDF
 
@@ -604,6 +683,23 @@ def corpus(c, tmp):
         c.count(("corpus", "F41", tuple(stn)))
         if r[0] == "raise" or r[1] != stn:
             c.fail("netcdf export/import changes station ids of different lengths", {"corpus": "F41", "stations": stn}, r)
+    # F50 (fixed 3e65d4f): empty cells in a ';' file with decimal commas
+    import rtctools.data.csv as csv
+    fn = os.path.join(d, "f50.csv")
+    with open(fn, "w") as fh:
+        fh.write("time;a;b\n2020-01-01 00:00:00;1,5;\n2020-01-01 01:00:00;;2,5\n")
+    r = call(lambda: np.atleast_1d(csv.load(fn, delimiter=";", with_time=True)))
+    c.count(("corpus", "F50"))
+    if r[0] == "raise" or not (float(r[1]["a"][0]) == 1.5 and isnan(float(r[1]["a"][1])) and isnan(float(r[1]["b"][0]))
+                               and float(r[1]["b"][1]) == 2.5):
+        c.fail("csv.load(';', decimal comma): empty cells must be read as NaN, not 0.0", {"corpus": "F50"},
+               None if r[0] == "raise" else {k: list(map(float, r[1][k])) for k in ("a", "b")})
+    # candidate (reported, not triaged): an empty cell in a column of integer-formatted values is read as -1
+    with open(fn, "w") as fh:
+        fh.write("a,b\n1,\n,3\n")
+    r = call(lambda: np.atleast_1d(csv.load(fn, delimiter=",")))
+    if r[0] == "ok" and float(r[1]["a"][1]) == -1.0:
+        c.hit("candidate C11-N3 reproduced: empty cell in an integer-formatted CSV column reads as -1")
     # F7 (fixed 658d814): forecast date 28 h after the start on a 7 h grid
     f = {"tz": None, "bin": None, "recs": [{"hdr": {"var": 0, "member": None, "step": 25200, "start": 0, "stop": 5 * 25200,
                                                   "forecast": 100800, "miss": xv(-999.0), "unit": "m"},
